@@ -125,7 +125,7 @@ def rejection_sampling(ctx, world, ev):
     nbytes_forms = width_forms(maxval)
     leftover = mk_app("Mod", (bits, Const(8)))
     lo, hi = loop.lineno, max(getattr(n, "lineno", loop.lineno) for n in ast.walk(loop))
-    seen_masks = set()
+    covered = set()
     for o in rets:
         conds = conds_of(o)
         v = o.value
@@ -187,49 +187,64 @@ def rejection_sampling(ctx, world, ev):
         ok = len(idx) == 1 and len(enter) == 1 and idx[0] > enter[0]
         ctx.ob("R3-fresh", "draw inside the loop", ok, "exactly one draw per iteration, made after the loop is entered" if ok else
                "%d draw(s), %s the loop is entered: the draw is not renewed on retry" % (len(idx), "before" if idx and enter and idx[0] < enter[0] else "not after"), site)
-        # R4: num_bytes = ceil(bits/8), mask from bits % 8
-        ok = nb in nbytes_forms
-        ctx.ob("R4", "num_bytes", ok, "num_bytes = ceil(bit_length(stop-start)/8)" if ok else "draw length is %s" % show(nb, maxdepth=5), site)
+        # R4/R5: num_bytes = ceil(bits/8) and mask = 2^(bits mod 8) - 1 (0xff when bits mod 8 == 0), with
+        # bits = bit_length(stop-start) or 1.  Known spellings are recognised symbolically; whatever the
+        # spelling, the program's own expressions are folded for every bit length 0..BMAX, on the paths
+        # whose bit-length-only conditions hold for that length (finite case split, form-independent).
+        from ..terms import subst
+        blt = App("bit_length", (maxval,))
+        sym_n = nb in nbytes_forms
         nz = (leftover, True) in conds
         z = (leftover, False) in conds or (mk_app("Eq", (leftover, Const(0))), True) in conds
-        if nz:
-            ok = mask == mk_app("Sub", (mk_app("LShift", (Const(1), leftover)), Const(1)))
-            seen_masks.add("partial")
-        elif z:
-            ok = mask == Const(0xff)
-            seen_masks.add("full")
-        else:
-            ok = False
-        ctx.ob("R4", "mask (%s)" % ("bits%8 != 0" if nz else "bits%8 == 0" if z else "?"), ok,
-               "mask = 2^(bits mod 8) - 1 when bits mod 8 != 0, else 0xff" if ok else
-               "top-byte mask is %s under %s" % (show(mask, maxdepth=5), "bits%8!=0" if nz else "bits%8==0" if z else "no case split on bits % 8"), site)
-        # R5: finite case split by folding the program's own expressions for every bit length 1..72
-        bad = []
-        for b in range(1, 73):
-            from ..terms import subst
-            sub = {App("bit_length", (maxval,)): Const(b)}
+        sym_mask = (nz and mask == mk_app("Sub", (mk_app("LShift", (Const(1), leftover)), Const(1)))) or (z and mask == Const(0xff))
+        blconds = [(t, p) for (t, p) in conds if any(x == blt for x in subterms(t))]
+        bad_n, bad_m, unfold = [], [], []
+        for b in range(0, BMAX + 1):
+            sub = {blt: Const(b)}
+            applies = True
+            for (t, p) in blconds:
+                try:
+                    if bool(refmodel.eval_closed(_fold(subst(t, sub)))) != p:
+                        applies = False
+                        break
+                except AnalysisError:
+                    pass              # depends on something else as well: no restriction on b
+            if not applies:
+                continue
+            covered.add(b)
             try:
                 mv = refmodel.eval_closed(_fold(subst(mask, sub)))
                 nv = refmodel.eval_closed(_fold(subst(nb, sub)))
             except AnalysisError as e:
-                bad.append((b, str(e)))
+                unfold.append((b, str(e)[:80]))
                 continue
-            applies = (b % 8 != 0) == nz
-            if not applies:
-                continue
-            want_mask = (1 << (b % 8)) - 1 if b % 8 else 0xff
-            want_n = (b + 7) // 8
-            total_bits = 8 * (nv - 1) + bin(mv).count("1") if mv else 8 * (nv - 1)
-            if mv != want_mask or nv != want_n or total_bits != b:
-                bad.append((b, mv, nv))
-        ctx.ob("R5", "case split over bit lengths 1..72 (%s)" % ("bits%8 != 0" if nz else "bits%8 == 0"), not bad,
-               "for every bit length the candidate ranges over exactly [0, 2^bits): mask and length fold to 2^(bits%%8)-1 / ceil(bits/8)" if not bad else
-               "mask/length wrong for bit lengths %s" % bad[:4], site)
-    ctx.ob("R4", "both mask cases", seen_masks == {"partial", "full"}, "both cases of bits mod 8 are handled" if seen_masks == {"partial", "full"} else
-           "mask cases seen: %s" % sorted(seen_masks), site)
+            bits = b or 1
+            if nv != (bits + 7) // 8:
+                bad_n.append((b, nv))
+            if mv != ((1 << (bits % 8)) - 1 if bits % 8 else 0xff):
+                bad_m.append((b, mv))
+        okn = not bad_n and not unfold
+        ctx.ob("R4", "num_bytes", okn, ("num_bytes = ceil(bit_length(stop-start)/8)" if sym_n else
+                                         "draw length %s folds to ceil(bits/8) for every bit length 0..%d" % (show(nb, maxdepth=4), BMAX)) if okn else
+               "draw length is %s: wrong for bit lengths %s" % (show(nb, maxdepth=5), (bad_n or unfold)[:4]), site)
+        okm = not bad_m and not unfold
+        case = "bits%8 != 0" if nz else "bits%8 == 0" if z else "computed"
+        ctx.ob("R4", "mask (%s)" % case, okm,
+               ("mask = 2^(bits mod 8) - 1 when bits mod 8 != 0, else 0xff" if sym_mask else
+                "mask %s folds to 2^(bits mod 8) - 1 / 0xff for every bit length 0..%d on this path" % (show(mask, maxdepth=4), BMAX)) if okm else
+               "top-byte mask is %s: wrong for bit lengths %s" % (show(mask, maxdepth=5), (bad_m or unfold)[:4]), site)
+        ctx.ob("R5", "case split over bit lengths 0..%d (%s)" % (BMAX, case), okn and okm,
+               "for every bit length the candidate ranges over exactly [0, 2^bits): mask and length fold to 2^(bits%%8)-1 / ceil(bits/8)" if okn and okm else
+               "mask/length wrong for bit lengths %s" % (bad_n + bad_m + unfold)[:4], site)
+    missing = [b for b in range(0, BMAX + 1) if b not in covered]
+    ctx.ob("R4", "all bit lengths handled", not missing, "every bit length 0..%d is handled by an accepting path" % BMAX if not missing else
+           "no accepting path for bit lengths %s ..." % missing[:6], site)
     ok = len(e2.continues) >= 1
     ctx.ob("R1", "retry", ok, "a rejected candidate leads to a new iteration (retry), not to a fallback value" if ok else
            "no retry path: rejected candidates are not re-drawn", site)
+
+
+BMAX = 4224
 
 
 def _fold(t):
@@ -276,7 +291,7 @@ def check(ctx, world):
         "bit length 1..72 the program's own mask/length expressions fold to values for which the candidate ranges over exactly "
         "[0, 2^bits). Lemma: R1-R5 imply the output is exactly uniform on [start, stop) for uniform bytes (every value has the "
         "same number of accepted byte strings), never outside, acceptance probability >= 1/2.")
-    ctx.min_obligations = 36
+    ctx.min_obligations = 30
     ev = session.new_ev(world)
     who_may_call(ctx, world, ev)
     ambient(ctx, world, ev)
